@@ -85,14 +85,19 @@ _TRUSTED = [
     "model, messages); PROPFAIL is decided by the extracted checkers only (plus, for C14, textual equality of the "
     "outcome sequences of the 9 chunkings and the record count of the bundled files)",
     "Rust harness harness/src/bin/transfac.rs (file generators and mutators, canonical printer print_canon compared "
-    "byte for byte with TransfacPrint.print_file, custom chunked BufRead, catch_unwind + watchdog thread)",
+    "byte for byte with TransfacPrint.print_file, custom chunked BufRead, scripted failing BufRead EvChunked (fill_buf fails with "
+    "kind Other or is interrupted at chosen points), polling consumer read_all(b, cap, post), catch_unwind + watchdog thread)",
+    "translator translate/transfac_reader.py (regex reading of the two `last` updates and the starts_with literals of reader.rs, the "
+    "two-letter codes of parse_tag in parse.rs, K and the from_ascii arms of Dna / Protein in abc.rs -> coq/transfac/GenReader.v; "
+    "anything else = cannot parse = broken obligation)",
     "modelled, not verified: transfac/{reader,parse,mod}.rs and error.rs as Gallina functions on byte lists; "
     "nom 7.1.3 combinator semantics (Nom.v, error kinds not modelled); std BufRead::read_until/read_line over "
     "fill_buf/consume and str::from_utf8 (Stream.v, Bytes.utf8_valid); str::trim with the White_Space set; "
     "character-level operations read at byte level (exact on valid UTF-8, which read_line guarantees)",
     "decimal -> f32: NOT trusted to Rust: Dec2F32.f32_of_token converts the token exactly (integer arithmetic + one "
     "Flocq binary_normalize rounding) and the harness' cell bits (Rust's str::parse::<f32>) are compared with it bit for bit",
-    "Flocq 4.1.0 binary32 (BinarySingleNaN) for cell values, Record::to_counts (round, ==, saturating cast)",
+    "Flocq 4.1.0 binary32 (BinarySingleNaN) for cell values, Record::to_counts (round, ==, saturating cast) and Record::to_freq "
+    "(TransfacFreq.v; scalar pseudocounts 0.0 and 0.5 only)",
 ]
 
 C14_SPEC = dict(
@@ -126,7 +131,12 @@ C14_SPEC = dict(
          "to_counts) equals the written records then END (extracted check_c14), is the same for all 9 chunkings, and "
          "equals the extracted reader+parser model run on one chunk, on the random chunking and on 1-byte chunks; "
          "canonical cases carry wf=1 and the driver confirms with the extracted wf_file that they lie inside the "
-         "hypothesis of C14.reader_roundtrip. Non-trivial: distinct files with >= 2 records or a matrix of >= 2 rows.",
+         "hypothesis of C14.reader_roundtrip. Round 3: generated lines carry post=2 (two more next() after the end of input, under "
+         "all 9 chunkings): expected records, END, then END post times (extracted check_c14p: check_c14p_sound, "
+         "check_c14p_is_check_c14, model_passes_c14p; theorem reader_roundtrip_post); every record outcome carries "
+         "Record::to_freq(0.0) / to_freq(0.5) as f32 bits, recomputed by the extracted to_freq_bits from the record's own cells "
+         "(DIFF to_freq(..); theorems to_freq_shape, to_freq_rows_normalised). 17 theorems in coq/transfac/C14.v. "
+         "Non-trivial: distinct files with >= 2 records or a matrix of >= 2 rows.",
     trusted_base=_TRUSTED,
     assumptions=[
         "TRANSFAC: reader_roundtrip (all record lists meeting the boolean wf_file, all chunkings) is proved for the "
@@ -174,18 +184,30 @@ C15_SPEC = dict(
          "'1e' / 'infinity' / overflowing count tokens, LF->CR swaps, garbage after the last '//', spliced blocks), "
          "random bytes and random format-alphabet strings, the empty input, and the corpus of F18 witnesses and "
          "boundary inputs; each read through two BufReader capacities and a random chunk pattern under catch_unwind "
-         "with a watchdog. Checked: every outcome sequence is records then exactly one error or END, no PANIC/HANG "
-         "(extracted check_c15), and equals outcome by outcome (record contents included, error kind io/nom) the "
-         "extracted reader+parser model. Non-trivial: distinct non-empty inputs.",
+         "with a watchdog; after the first outcome that is not a record `next()` is called post = 0..6 more times (every outcome "
+         "printed); 18 % of the cases are 2-4 record files with damaged UTF-8 (invalid bytes at any offset, at line starts, "
+         "multi-byte characters at line starts); half of the cases are also read through 1-2 scripted streams whose fill_buf "
+         "fails (kind Other) or is interrupted at chosen points (corpus/C15/transfac_poll.txt: 0xff at every offset and a fault after "
+         "every number of bytes of a 3-record file). Checked: every outcome sequence is records, one error or END, then exactly post "
+         "returned values, no PANIC/HANG (extracted check_c15p, proved sound and complete), and equals outcome by outcome (record "
+         "contents included, error kind io/nom) the extracted model (reader model for the chunkings; fault model selected by the "
+         "translated flag for the scripted streams: since /repo 23feb61 the flag reads `last = buffer.len()` = the repaired reader, "
+         "total for any number of polls). 32 theorems in coq/transfac/C15.v; those named `_current` / `_generated` / "
+         "gen_prefixes_are_modelled are re-checked against GenReader.v on every run. Non-trivial: distinct non-empty inputs.",
     trusted_base=_TRUSTED,
     assumptions=[
-        "TRANSFAC: the underlying BufRead returns no I/O error other than through read_line's UTF-8 validation "
-        "(in-memory streams); an I/O error is returned by the code as Err and is not a panic site",
+        "TRANSFAC: for streams whose fill_buf fails, reader_total_faults_stop (reader as it was before /repo 23feb61, consumer stops "
+        "at the first error) and reader_total_faults_repaired (with `last = buffer.len()`, any number of polls) are proved; "
+        "reader_total_faults_current / reader_total_faults_stop_current speak about whichever of the two the translator reads from "
+        "reader.rs (the repaired one since 23feb61). Polling the UNREPAIRED reader again after a fault in the middle of a line can "
+        "panic (finding F-T1, witness kept as reader_polls_fault_refuted; status fixed in known_findings.d/transfac.json); std's "
+        "read_until/read_line/append_to_string semantics (Interrupted retried, valid partial line kept on error, invalid appended "
+        "bytes cut back) are modelled in TransfacFault.v and tied by the scripted-stream differential check",
         "TRANSFAC: reader_total is a theorem about the Gallina model (reader.rs, parse.rs, error.rs, the nom "
         "combinators and std's read_line as modelled in Nom.v / Stream.v); panic sites of the model = the slice "
         "`buffer[last..]` (bounds, char boundary) and `unreachable!()` on nom::Err::Incomplete; allocation failure, "
         "stack overflow and panics inside nom/std themselves are not modelled (nom's float parser and f32::from_str "
-        "are total); Record::to_counts / to_freq are called by the harness under catch_unwind but are not part of "
-        "the theorem",
+        "are total); Record::to_counts / to_freq are called by the harness under catch_unwind and compared with the model "
+        "(to_freq: TransfacFreq.v) but are not part of the totality theorem",
     ],
 )
